@@ -51,8 +51,8 @@ EVENTS = ([("press", k) for k in KEYS] + [("release", k) for k in KEYS] + [("on"
           [("wimem", 0xFC, 0), ("imem_or", 0xFC, 0x01), ("imem_or", 0xFC, 0x04), ("imem_or", 0xFC, 0x08)] +
           [("wimem", 0xF8, 0x00), ("wimem", 0xF8, 0x5A), ("wimem", 0xEC, 0x10), ("wimem", 0x50, 0x77)])
 
-ARCH = ("pc", "BA", "I", "X", "Y", "U", "S", "f", "imr", "isr", "stack", "imem", "ram_crc", "lcd_meta", "lcd_crc",
-        "fifo", "power", "kol", "koh")
+ARCH = ("pc", "BA", "I", "X", "Y", "U", "S", "f", "imr", "isr", "stack", "imem", "ram_crc", "rom_crc", "lcdwin_crc", "lcd_meta",
+        "lcd_crc", "fifo", "power", "kol", "koh")
 BOOK = ("in_irq", "irq_total", "irq_key", "irq_mti", "irq_sti", "next_mti", "next_sti", "timer_enabled", "cycles", "instrs",
         "pending", "source", "call_depth", "pressed")
 CROSS = ("pc", "BA", "I", "X", "Y", "U", "S", "f", "imr", "isr", "stack", "ram_crc", "lcd_crc", "fifo", "power",
@@ -62,8 +62,9 @@ CROSS = ("pc", "BA", "I", "X", "Y", "U", "S", "f", "imr", "isr", "stack", "ram_c
 def scenario(main, body, imr0, timer, kb_irq=True):
     reset = (bytes([0x0F]) + le3(0xB9000) + bytes([0x0E]) + le3(0xBA000) + bytes([0x32, 0xCC, 0xF0, 0xFF]) +
              bytes([0x32, 0xCC, 0xF1, 0x07, 0x32, 0xCC, 0xF8, 0x18, 0x32, 0xCC, 0xFB, imr0, 0x08, 0x3F, 0xA8, 0x00, 0x20, 0x00, 0x0C]) + le3(0xB8100))
-    loop = (bytes([0x32, 0x80, 0xF2, 0xB0, 0x24, 0x6C, 0x00, 0xA8, 0x02, 0x20, 0x00, 0x04, SUB & 0xFF, (SUB >> 8) & 0xFF]) +
-            SLEEPS[main])
+    # (the store to 0xC0200 aims at the ROM window: it must stay without effect before and after a restore)
+    loop = (bytes([0x32, 0x80, 0xF2, 0xB0, 0x24, 0x6C, 0x00, 0xA8, 0x02, 0x20, 0x00, 0xA8, 0x00, 0x02, 0x0C,
+                   0x04, SUB & 0xFF, (SUB >> 8) & 0xFF]) + SLEEPS[main])
     loop += bytes([0x13, len(loop) + 2])
     sub = bytes([0x40, 0x11, 0x32, 0xA0, 0x50, 0x06])
     handler = bytes([0x00, 0x28]) + BODIES[body] + bytes([0x38, 0x01])
